@@ -140,13 +140,28 @@ impl<'a> Interp<'a> {
             Ty::Sc(sc) => self.scalar(*sc, it),
             Ty::Opt(t) => self.from_meta(t, it).map(|v| json!({ "some": v })),
             Ty::Map(t) => self.map_from_meta(t, it),
+            Ty::PathList => match &it.kind {
+                Kind::List(items) => {
+                    let mut paths = vec![];
+                    for inner in items {
+                        match inner.kind {
+                            Kind::Word => paths.push(canon_tokens(&inner.name)),
+                            // fail-fast: the first item that is not a bare path ends the conversion
+                            _ => return Err(vec![leaf(LeafKind::BadValue, Where::Item(inner.id), &inner.name)]),
+                        }
+                    }
+                    Ok(json!({ "paths": paths }))
+                }
+                Kind::Nv(_) => Err(vec![leaf(LeafKind::BadValue, Where::Value(it.id), &it.name)]),
+                _ => Err(vec![leaf(LeafKind::BadValue, Where::Item(it.id), &it.name)]),
+            },
             Ty::Recv(id) | Ty::BoxRecv(id) => self.recv_from_meta(&self.recvs[*id], it),
         }
     }
 
     pub fn from_none(&self, ty: &Ty) -> Option<Value> {
         match ty {
-            Ty::Sc(_) | Ty::Map(_) => None,
+            Ty::Sc(_) | Ty::Map(_) | Ty::PathList => None,
             Ty::Opt(_) => Some(Value::Null),
             Ty::Recv(id) | Ty::BoxRecv(id) => {
                 let r = &self.recvs[*id];
